@@ -78,6 +78,7 @@ contract(
     params={}, setup=["replies = []", "fail_at = None"] + SETUP + ["d._sock = t", "d._connection_opened = True"],
     ensures=["False"], raises_only=LIB, ensures_exc=["t.sent == []", "not d._target_is_connected"], props=["C10"])
 
+SOCK_CLOSED = "(t.closed or 'd._sock = t' not in _init_lines)"
 # ---- close from every state of the invariant, any fault: always ends closed; without fault the target is told
 for _state, _init, _kinds in (
         ("connected", ["d._sock = t", "d._connection_opened = True", "d._session = session", "d._target_is_connected = True",
@@ -88,9 +89,11 @@ for _state, _init, _kinds in (
     contract(
         id=f"lifecycle.close.{_state}", func=D + ".close", call="d.close()",
         bind={"fc_status": ["0", "1"]}, params={"session": P.int(1, 0xFFFFFFFF), "fail_at": FAULT},
-        setup=["replies = [spec.env.forward_close_reply(fc_status)]"] + SETUP + _init,
-        ensures=[CLOSED, f"spec.env.frame_kinds(t.sent) == {_kinds}", "all(spec.encap.try_parse_frame(f)[1] == session for f in t.sent)"],
-        raises_only=["pycomm3.exceptions.CommError"], ensures_exc=[CLOSED, "fail_at is not None"],
+        setup=["replies = [spec.env.forward_close_reply(fc_status)]", f"_init_lines = {_init!r}"] + SETUP + _init,
+        ensures=[CLOSED, f"spec.env.frame_kinds(t.sent) == {_kinds}", "all(spec.encap.try_parse_frame(f)[1] == session for f in t.sent)",
+                 SOCK_CLOSED],
+        # whatever failed on the way, the TCP link itself is closed: a reachable target then drops session and connection
+        raises_only=["pycomm3.exceptions.CommError"], ensures_exc=[CLOSED, "fail_at is not None", SOCK_CLOSED],
         props=["C10", "C11"], max_paths=20000)     # C11: the session handle is zero again after close, so a re-open registers anew
 
 # ---- context manager: __exit__ always closes and never swallows the body's exception
